@@ -305,13 +305,12 @@ theorem remark1_wf {sep sep' : Char} {ac : Bool} (addSep : Bool) (l : LSeg) (hwf
     exact ⟨hne, hamp, allBare_sep (by simp) hba, r⟩
   | keyword inv kw ps => exact allBare_sep (sep := sep) (by simp) hwf
   | collector e op =>
-    obtain ⟨ho, hh, hb⟩ := hwf
-    exact ⟨ho, hh, allBare_sep (by simp) hb⟩
+    obtain ⟨ho, hb⟩ := hwf
+    exact ⟨ho, allBare_sep (by simp) hb⟩
 
 theorem remark1_flags (sep : Char) (addSep : Bool) (l : LSeg) :
-    (remark1 sep addSep l).isColl = l.isColl ∧ (remark1 sep addSep l).isInter = l.isInter ∧
-    (remark1 sep addSep l).isEmptyColl = l.isEmptyColl := by
-  cases l <;> simp [remark1, LSeg.isColl, LSeg.isInter, LSeg.isEmptyColl]
+    (remark1 sep addSep l).isColl = l.isColl ∧ (remark1 sep addSep l).isInter = l.isInter := by
+  cases l <;> simp [remark1, LSeg.isColl, LSeg.isInter]
 
 theorem remark1_seg_true (sep : Char) (addSep : Bool) (l : LSeg) :
     (remark1 sep addSep l).seg true = l.seg true := by
@@ -332,35 +331,34 @@ def remarkFrom (sep : Char) : Bool → List LSeg → List LSeg
   | addSep, l :: r => remark1 sep addSep l :: remarkFrom sep true r
 
 theorem renderFrom_eq {sep sep' : Char} (hsep' : sep' = '.' ∨ sep' = '/') :
-    ∀ (ls : List LSeg) (ac mm addSep : Bool), wfFromL sep ac mm ls → (∀ l ∈ ls, RenderOK l) →
+    ∀ (ls : List LSeg) (ac addSep : Bool), wfFromL sep ac ls → (∀ l ∈ ls, RenderOK l) →
     renderFrom sep' addSep (ls.map (LSeg.seg false)) =
       textFrom sep' addSep (remarkFrom sep' addSep ls) := by
   intro ls
   induction ls with
-  | nil => intro _ _ _ _ _; rfl
+  | nil => intro _ _ _ _; rfl
   | cons l r ih =>
-    intro ac mm addSep hwf hok
-    obtain ⟨hw1, _, hw3⟩ := hwf
+    intro ac addSep hwf hok
+    obtain ⟨hw1, hw3⟩ := hwf
     simp only [List.map_cons, renderFrom, remarkFrom, textFrom]
     rw [render_seg hsep' addSep l hw1 (hok l (by simp)),
-      ih _ _ true hw3 (fun x hx => hok x (by simp [hx]))]
+      ih _ true hw3 (fun x hx => hok x (by simp [hx]))]
 
 theorem remarkFrom_wf {sep sep' : Char} :
-    ∀ (ls : List LSeg) (ac mm addSep : Bool), wfFromL sep ac mm ls → (∀ l ∈ ls, RenderOK l) →
+    ∀ (ls : List LSeg) (ac addSep : Bool), wfFromL sep ac ls → (∀ l ∈ ls, RenderOK l) →
     (addSep = false → ac = false) → (∀ l ∈ (if addSep then ls else ls.tail), l.isTop = false) →
-    wfFromL sep' ac mm (remarkFrom sep' addSep ls) := by
+    wfFromL sep' ac (remarkFrom sep' addSep ls) := by
   intro ls
   induction ls with
-  | nil => intro _ _ _ _ _ _ _; trivial
+  | nil => intro _ _ _ _ _ _; trivial
   | cons l r ih =>
-    intro ac mm addSep hwf hok h1 h2
-    obtain ⟨hw1, hw2, hw3⟩ := hwf
-    obtain ⟨f1, f2, f3⟩ := remark1_flags sep' addSep l
+    intro ac addSep hwf hok h1 h2
+    obtain ⟨hw1, hw3⟩ := hwf
+    obtain ⟨f1, _⟩ := remark1_flags sep' addSep l
     refine ⟨remark1_wf addSep l hw1 (hok l (by simp))
-      (fun ha hc => by rw [h1 ha] at hc; cases hc) (fun ha => h2 l (by simp [ha])), ?_, ?_⟩
-    · rw [f2]; exact hw2
-    · rw [f1, f3]
-      apply ih _ _ true hw3 (fun x hx => hok x (by simp [hx])) (by simp)
+      (fun ha hc => by rw [h1 ha] at hc; cases hc) (fun ha => h2 l (by simp [ha])), ?_⟩
+    · rw [f1]
+      apply ih _ true hw3 (fun x hx => hok x (by simp [hx])) (by simp)
       intro x hx
       simp only [↓reduceIte] at hx
       apply h2 x
@@ -414,12 +412,12 @@ theorem remarkFrom_tail_top (sep : Char) : ∀ (ls : List LSeg) (addSep : Bool),
       · cases x <;> simp [remark1, LSeg.isTop]
       · exact hr l hl
 
-theorem render_eq (fslash : Bool) {sep : Char} (ls : List LSeg) (ac mm : Bool)
-    (hwf : wfFromL sep ac mm ls) (hok : ∀ l ∈ ls, RenderOK l) :
+theorem render_eq (fslash : Bool) {sep : Char} (ls : List LSeg) (ac : Bool)
+    (hwf : wfFromL sep ac ls) (hok : ∀ l ∈ ls, RenderOK l) :
     render fslash (ls.map (LSeg.seg false)) =
       textAll fslash (remarkFrom (if fslash then '/' else '.') false ls) := by
   cases fslash
-  · simp [render, textAll, renderFrom_eq (sep' := '.') (Or.inl rfl) ls ac mm false hwf hok]
-  · simp [render, textAll, renderFrom_eq (sep' := '/') (Or.inr rfl) ls ac mm false hwf hok]
+  · simp [render, textAll, renderFrom_eq (sep' := '.') (Or.inl rfl) ls ac false hwf hok]
+  · simp [render, textAll, renderFrom_eq (sep' := '/') (Or.inr rfl) ls ac false hwf hok]
 
 end Ypv.Sim
